@@ -163,7 +163,7 @@ def meta_triple_scenarios(rng, n, mode="th"):
 # ---------------------------------------------------------------- shard driver
 
 def run_scenarios(scn_jsons, bound, n_random, pct, sub_seed, symptoms, budget=None, extra_judge=None,
-                  observer_factory=None, normalise=None, n_line=0, skip_dfs=False):
+                  observer_factory=None, normalise=None, n_line=0, skip_dfs=False, n_sync=0):
     """Explore every scenario; report the symptoms listed in `symptoms` (others -> foreign)."""
     res = ShardResult()
     rng = random.Random(sub_seed)
@@ -180,6 +180,8 @@ def run_scenarios(scn_jsons, bound, n_random, pct, sub_seed, symptoms, budget=No
             streams = []
             if not skip_dfs:
                 streams.append(C.explore(runner, bound, budget=budget, rng=rng, n_random=n_random, pct=pct, normalise=normalise))
+            if n_sync:
+                streams.append(C.explore_sync_focus(runner, rng, n_sync, normalise=normalise))
             if n_line:
                 streams.append(C.explore_line_level(runner, rng, n_line, normalise=normalise))
             for ob, probs, new in _it.chain(*streams):
